@@ -69,6 +69,7 @@ type Model struct {
 	memo       map[memoKey]int
 	reachCache map[*Dec]map[int]bool
 	snap       map[int]bool // done flags by function id at the start of the current Invoke (nil: live state)
+	pruneDone  bool
 }
 
 const (
@@ -257,6 +258,15 @@ func (m *Model) isDoneD(d *Dec) bool {
 // function n is invoked: ids of functions in the closure.
 func (m *Model) may(start node) map[int]bool { return m.mayX(start, false) }
 
+// mayInvoke: the closure of an Invoke as of its start. A single key whose nearest enclosing decorator
+// has already run is delivered from that decoration: a built decorator is a leaf, neither outer
+// decorators nor the provider may run on its account.
+func (m *Model) mayInvoke(start node) map[int]bool {
+	m.pruneDone = true
+	defer func() { m.pruneDone = false }()
+	return m.mayX(start, false)
+}
+
 // mayX: nested = computed for a "who may run under this decorator" question; then decorated
 // groups conservatively keep their feeders (no further nesting).
 func (m *Model) mayX(start node, nested bool) map[int]bool {
@@ -266,6 +276,13 @@ func (m *Model) mayX(start node, nested bool) map[int]bool {
 		n := q[0]
 		q = q[1:]
 		for _, p := range n.f.Params {
+			// (single keys only: for a group dig calls every enclosing group decorator, outermost
+			// first, whenever the group is requested)
+			if m.pruneDone && !nested && p.K.Group == "" {
+				if ds := m.decsOf(n.s, p.K, n.self); len(ds) > 0 && m.isDoneD(ds[0]) {
+					continue
+				}
+			}
 			for _, d := range m.decsOf(n.s, p.K, n.self) {
 				if !seen[d.F.ID] {
 					seen[d.F.ID] = true
